@@ -75,7 +75,7 @@ PROPS = {
              "panicking closures are out of scope.",
         assumptions=["closures are modelled as pure functions plus an invocation count"]),
     "C02": dict(
-        module="Flussab.Props.C02", modules=["Flussab.Props.C02", "Flussab.Props.TieReader"], engines=[("reader", 4000, 150000, ""), ("reader", 470, 1050, "scale")], release=True,
+        module="Flussab.Props.C02", modules=["Flussab.Props.C02", "Flussab.Props.TieReader"], engines=[("reader", 4000, 150000, ""), ("reader", 528, 1200, "scale")], release=True,
         claim="DeferredReader is modelled field for field (buffer, cursor, valid length, realign/shrink/grow, the "
               "retried read) over a source model with arbitrary read schedules. Theorems, for every history and "
               "schedule: each operation leaves the stream in front of the cursor unchanged except for the bytes "
@@ -93,7 +93,7 @@ PROPS = {
         assumptions=["position() has not wrapped around 2^64", "chunk sizes >= 1",
                      "source obeys the std::io::Read contract (lying sources are C14's subject)"]),
     "C14": dict(
-        module="Flussab.Props.C14", modules=["Flussab.Props.C14", "Flussab.Props.TieReader", "Flussab.Props.TieWriter"], engines=[("reader", 3000, 100000, "lies"), ("writer", 300, 4000, ""), ("reader", 470, 1050, "scale+lies"), ("writer", 480, 630, "scale")], release=True,
+        module="Flussab.Props.C14", modules=["Flussab.Props.C14", "Flussab.Props.TieReader", "Flussab.Props.TieWriter"], engines=[("reader", 3000, 100000, "lies"), ("writer", 300, 4000, ""), ("reader", 528, 1200, "scale+lies"), ("writer", 480, 630, "scale")], release=True,
         claim="The index discipline every unsafe block of the reader relies on (pos_in_buf + valid_len <= buf.len, "
               "so buf()/get_unchecked/8-byte loads stay inside the buffer) is the invariant Reader.Ok, proved to "
               "hold after every call of the safe API for EVERY source - lying Ok(n) > slice included - and across "
@@ -110,7 +110,7 @@ PROPS = {
         assumptions=["chunk >= 1", "position() not wrapped"]),
     "C09": dict(
         module="Flussab.Props.C09", modules=["Flussab.Props.C09", "Flussab.Props.C09Parsers", "Flussab.Props.C09Btor2", "Flussab.Props.C09Aiger", "Flussab.Props.TieReader", "Flussab.Props.TieCnfToken", "Flussab.Props.TieCnfParser", "Flussab.Props.TieWcnfParser", "Flussab.Props.TieGcnfParser", "Flussab.Props.TieSatLog", "Flussab.Props.TieLineReader", "Flussab.Props.TieAigerToken", "Flussab.Props.TieBtor2Token", "Flussab.Props.TieAigerHeader", "Flussab.Props.TieAigerNew", "Flussab.Props.TieAigerSections", "Flussab.Props.TieAigerBinSections", "Flussab.Props.TieAigerSymbols"],
-        engines=[("aiger", 1500, 50000, "ls"), ("reader", 4000, 150000, ""), ("cnf", 2500, 80000, "ls"), ("btor2", 1500, 50000, "ls"), ("reader", 470, 1050, "scale"), ("cnf", 270, 600, "scale"), ("btor2", 24, 120, "scale:ls"), ("aiger", 40, 300, "scale:ls")], release=True,
+        engines=[("aiger", 1500, 50000, "ls"), ("reader", 4000, 150000, ""), ("cnf", 2500, 80000, "ls"), ("btor2", 1500, 50000, "ls"), ("reader", 528, 1200, "scale"), ("cnf", 270, 600, "scale"), ("btor2", 24, 120, "scale:ls"), ("aiger", 40, 300, "scale:ls")], release=True,
         claim="Reader layer proved for all histories and schedules: exactly one non-Interrupted read per refill "
               "(one_read_per_refill), no read when buffered data satisfies the request (no_read_if_satisfied), no "
               "call after EOF/error (no_read_after_end, never_called_after_end), reads are demand driven "
@@ -197,7 +197,7 @@ PROPS = {
         assumptions=["the sink obeys the Write contract (accepts at most the slice length)"]),
     "C01": dict(
         module="Flussab.Props.C01", modules=["Flussab.Props.C01", "Flussab.Props.C01Btor2", "Flussab.Props.TieReader", "Flussab.Props.TieText", "Flussab.Props.TieCnfToken", "Flussab.Props.TieCnfParser", "Flussab.Props.TieWcnfParser", "Flussab.Props.TieGcnfParser", "Flussab.Props.TieSatLog", "Flussab.Props.TieLineReader", "Flussab.Props.TieAigerToken", "Flussab.Props.TieBtor2Token", "Flussab.Props.TieAigerHeader", "Flussab.Props.TieAigerNew", "Flussab.Props.TieAigerSections", "Flussab.Props.TieAigerBinSections", "Flussab.Props.TieAigerSymbols"],
-        engines=[("aiger", 3000, 150000, "rt+layout+mutate+arbitrary+utf8+huge"), ("cnf", 4000, 200000, "mix"), ("btor2", 3000, 150000, "rt+layout+kinds+mutate+arbitrary+kw"), ("reader", 1500, 50000, ""), ("btor2", 160, 640, "scale"), ("cnf", 270, 2600, "scale"), ("reader", 470, 1050, "scale"), ("aiger", 40, 300, "scale"), ("cnf", 900, 2000, "dict"), ("btor2", 900, 2000, "dict"), ("aiger", 900, 2000, "dict")], release=True,
+        engines=[("aiger", 3000, 150000, "rt+layout+mutate+arbitrary+utf8+huge"), ("cnf", 4000, 200000, "mix"), ("btor2", 3000, 150000, "rt+layout+kinds+mutate+arbitrary+kw"), ("reader", 1500, 50000, ""), ("btor2", 160, 640, "scale"), ("cnf", 270, 2600, "scale"), ("reader", 528, 1200, "scale"), ("aiger", 40, 300, "scale"), ("cnf", 900, 2000, "dict"), ("btor2", 900, 2000, "dict"), ("aiger", 900, 2000, "dict")], release=True,
         audit_observables=True,
         bv_decide_theorems=["signed_ascii_digits_multi_tied", "multi_scanners_buffer_independent", "btor2_lowercase_kernel", "btor2_lowercase_kernel_no_panic",
                             "btor2_lowercase_eq_spec", "btor2_lowercase_buffer_independent", "btor2_lowercase_eq_spec_const"],
@@ -216,7 +216,7 @@ PROPS = {
              "(+ bv_decide axioms through C13), harness, audit that format code uses only the modelled reader API.",
         assumptions=["chunk >= 1", "position() not wrapped"]),
     "C10": dict(
-        module="Flussab.Props.C10", modules=["Flussab.Props.C10", "Flussab.Props.TieReader"], engines=[("stream", 12, 60, ""), ("reader", 1500, 40000, ""), ("reader", 470, 1050, "scale"), ("stream", 40, 150, "scale")], release=True,
+        module="Flussab.Props.C10", modules=["Flussab.Props.C10", "Flussab.Props.TieReader"], engines=[("stream", 12, 60, ""), ("reader", 1500, 40000, ""), ("reader", 528, 1200, "scale"), ("stream", 40, 150, "scale")], release=True,
         claim="The logic part is a theorem about the reader's bookkeeping: through ANY history whose requests demand "
               "at most K bytes of look-ahead and whose chunk size stays <= C, the buffer length (Vec::len set by "
               "resize/truncate) stays <= 3*C + K (buf_len_bounded), independent of the number of bytes streamed - "
